@@ -42,6 +42,10 @@ func RunWorker(prop string, seed uint64, worker, cases int, scratch, out string,
 		os.Remove(jpath)
 		return res.WriteFile(out)
 	}
+	if prop == "C14" && worker == 5 {
+		runCloneInfoOnLiveChain(res, r, scratch, j, worker)
+		res.WriteFile(out)
+	}
 	if prop == "C14" && worker >= 1 && worker <= 4 {
 		// four workers start with their share of the twin comparison of answers and engine verdicts
 		runStatusAgreement(res, seed, scratch, j, worker)
@@ -131,6 +135,35 @@ func RunWorker(prop string, seed uint64, worker, cases int, scratch, out string,
 			}
 			res.Count("drift_sequences", 1)
 		}
+		// every action in every replica mode: the refusal branches of the mode-gated operations (a replica that is
+		// rebuilding or was marked failed refuses chain surgery, counter updates and snapshots) are reached only
+		// after a mode change, which the single-request matrix never makes
+		if !sess.Dead && ok && cb.target == "replica" && (cb.state == "open" || cb.state == "dirty") {
+			for _, mode := range []string{"WO", "ERR"} {
+				closer()
+				if t, closer, ok = mk(); !ok {
+					break
+				}
+				sess.T = t
+				sess.Send(Req{Method: "POST", URL: "/v1/replicas/1?action=setreplicamode", Body: `{"mode":"` + mode + `"}`, Class: "mode-matrix", Valid: true})
+				for _, rq := range reqs {
+					if sess.Dead {
+						break
+					}
+					// (create and updatecloneinfo are not mode-gated; updatecloneinfo on a replica that has a chain is
+					// known finding F24 and has its own directed case below)
+					if rq.Valid && rq.Method == "POST" && strings.HasPrefix(rq.URL, "/v1/replicas/1?action=") && !strings.HasSuffix(rq.URL, "=setreplicamode") && !strings.HasSuffix(rq.URL, "=close") &&
+						!strings.HasSuffix(rq.URL, "=updatecloneinfo") && !strings.HasSuffix(rq.URL, "=create") {
+						rq.Class = "mode-matrix"
+						sess.Send(rq)
+						res.Count("requests_in_a_non_RW_mode", 1)
+					}
+				}
+			}
+			if ok {
+				base = t.Digest()
+			}
+		}
 		// convoys: a state-changing request and a second request queued behind the target's mutex, then released in
 		// that order - the second one runs in a state that changed after it passed its pre-lock checks
 		if !sess.Dead && ok {
@@ -199,6 +232,36 @@ func headReqs(l []Req, n int) []Req {
 		return l[:n]
 	}
 	return l
+}
+
+// runCloneInfoOnLiveChain is the directed history behind known finding F24: the action table offers updatecloneinfo
+// in every open state, and the engine takes the snapshot name it is given as the new parent of the head without
+// looking at the chain. After a revert to s1 the snapshot s2 lies outside the live chain; updatecloneinfo(s2) makes
+// it the head's parent, the next snapshot inherits that parent, and removing s1 then dereferences the missing
+// member inside the handler (net/http recovers; the chain can no longer be listed).
+func runCloneInfoOnLiveChain(res *vk.Result, r *vk.Rand, scratch string, j *os.File, worker int) {
+	rt, err := NewRepTarget("open", filepath.Join(scratch, "f24"), r)
+	if err != nil {
+		res.Inconclusive = append(res.Inconclusive, err.Error())
+		return
+	}
+	defer os.RemoveAll(rt.Dir)
+	b, _ := json.Marshal(map[string]string{"k": "REQ clone-info-on-live-chain"})
+	j.Write(append(b, '\n'))
+	var last Outcome
+	for _, st := range []struct{ action, body string }{
+		{"revert", `{"name":"volume-snap-s1.img","created":"2026-01-01T00:00:00Z"}`},
+		{"updatecloneinfo", `{"snapname":"s2","revisioncounter":"3"}`},
+		{"snapshot", `{"name":"fz1","usercreated":true,"created":"2026-01-01T00:00:00Z"}`},
+		{"removedisk", `{"name":"volume-snap-s1.img"}`},
+	} {
+		last = do(rt.T, Req{Method: "POST", URL: "/v1/replicas/1?action=" + st.action, Body: st.body}, 30*time.Second)
+	}
+	res.Count("clone_info_on_live_chain_histories", 1)
+	if last.Panic != "" {
+		res.Violate(vk.Violation{Property: "C14", Signature: "clone-info-on-live-chain:removedisk-handler-panic",
+			What: "revert to s1, updatecloneinfo naming s2 (outside the live chain), snapshot, removedisk s1: the handler panicked: " + firstLines(last.Panic, 1), Case: worker})
+	}
 }
 
 // ---------------------------------------------------------------- C17: action table and attach rule
